@@ -49,6 +49,9 @@ func genC08(seed uint64, tier string) C08Cfg {
 	if r.Bool(0.5) {
 		c.Deploy.IDs, c.Part, c.Deploy.PickFixed = sparseMembership(r, n, c.Deploy.Silent, c.Deploy.PickUnsorted)
 	}
+	if rd := prng.Derive(seed, "real-init-delay"); rd.Bool(0.2) {
+		c.Deploy.RealInitDelayMs = rd.Range(1, 40)
+	}
 	return c
 }
 
